@@ -505,7 +505,7 @@ func (p *c07) runExists(r *core.CaseResult, ei, di int, mk func() map[string]any
 
 func (p *c07) Meta() core.Meta {
 	return core.Meta{
-		Rule: "pipelines: 14 inner queries (filter, projection, aggregate, order, limit, distinct, star, empty result, nested column kept, CASE, EXISTS) x 12 outer queries (star, filter, arithmetic, group-by, order, aggregate, limit, distinct, IN list, IN subquery on the enclosing document, BETWEEN, window) in the forms WITH c AS (I) O[c] and FROM (I) AS d; 2- and 3-stage CTE chains; a CTE referenced twice (self-join, UNION ALL); a CTE read through a path selector; each composed query vs the outer query run over the inner result materialised as plain input. Row-scoped: 8 select-list subqueries (two of them read the enclosing document but are correlated with the outer row) vs the subquery run standalone on each row (with <- bound to the enclosing document), 5 IN-subqueries vs membership in the standalone result, 6 EXISTS predicates over inner and outer columns vs a direct existential. 5 documents (thorough: also all tables of <= 3 rows over 3 archetypes). non-trivial = the composed query returns rows",
+		Rule:        "pipelines: 14 inner queries (filter, projection, aggregate, order, limit, distinct, star, empty result, nested column kept, CASE, EXISTS) x 12 outer queries (star, filter, arithmetic, group-by, order, aggregate, limit, distinct, IN list, IN subquery on the enclosing document, BETWEEN, window) in the forms WITH c AS (I) O[c] and FROM (I) AS d; 2- and 3-stage CTE chains; a CTE referenced twice (self-join, UNION ALL); a CTE read through a path selector; each composed query vs the outer query run over the inner result materialised as plain input. Row-scoped: 8 select-list subqueries (two of them read the enclosing document but are correlated with the outer row) vs the subquery run standalone on each row (with <- bound to the enclosing document), 5 IN-subqueries vs membership in the standalone result, 6 EXISTS predicates over inner and outer columns vs a direct existential. 5 documents (thorough: also all tables of <= 3 rows over 3 archetypes). non-trivial = the composed query returns rows",
 		Assumptions: []string{"inner and outer columns of EXISTS have distinct names (the property fixes no rule for clashes)", "composed and staged results are compared as sequences (multisets for the self-join)"},
 		Bounds:      map[string]any{"inner": len(c07Inner), "outer": len(c07Outer), "documents": len(p.docs)},
 		Exhaustive:  true,
